@@ -156,15 +156,18 @@ func (exec *Executor) execBinaryMathExpr(
 		return res, err
 	}
 
-	op := node.Operator()
-	if len(lSeq.list) != 1 {
-		return exec.returnVerboseError(mathOperandErr(op, "left"))
-	}
-
+	// Evaluate the right operand before checking the left one, as PostgreSQL
+	// does, so that an error in it is reported rather than replaced by the
+	// suppressible left operand error, and x + y fails the way y + x does.
 	rSeq := newList()
 	res, err = exec.executeItemOptUnwrapResult(ctx, node.Right(), value, true, rSeq)
 	if res == statusFailed {
 		return res, err
+	}
+
+	op := node.Operator()
+	if len(lSeq.list) != 1 {
+		return exec.returnVerboseError(mathOperandErr(op, "left"))
 	}
 
 	if len(rSeq.list) != 1 {
